@@ -116,7 +116,9 @@ pub fn run(cfg: &Cfg, rep: &mut Report) {
     let _ = heavy_from;
     let hays: Vec<String> = vec!["aaaaab".into(), "aabbxx AAx".into(), "abcd abcbcd".into(), "the quick brown fox".into(), "aab".into(), "ababa".into(), "KKs \u{212A}\u{17F}".into(), "aé".into(), "xxxxxxxxxx".into(), "aaa\naaaa".into(), "".into(), "ééé".into(), "αβγδεζηθικλμνξοπρστυφχψω".into(), "ΑΒΓΔΕΖΗΘΙΚΛΜΝΞΟΠΡΣΤΥΦΧΨΩ".into(), "αΒγΔεΖηΘ zZ éÉüÜ".into(), "zzzzzzzzzzzzzzzzzzzzzzzzzzzzzzzz".into(),
         // U+0428/0448 (Cyrillic sha) vs U+10428/10400 (Deseret): equal low 16 bits; a / U+0161 / U+0461: equal low 8 bits
-        "шШ 𐐨𐐀 ш𐐨 Ш𐐀".into(), "𐐨𐐀ш𐐨шШ".into(), "aA šŠ ѡѠ aš šѡ Aѡ".into(), "ѡѠaAšŠ".into(), "𐐀ш".into(), "шШ".into(), "𐐨𐐀".into(), "aaaab".into(), format!("{}b", "a".repeat(48))];
+        "шШ 𐐨𐐀 ш𐐨 Ш𐐀".into(), "𐐨𐐀ш𐐨шШ".into(), "aA šŠ ѡѠ aš šѡ Aѡ".into(), "ѡѠaAšŠ".into(), "𐐀ш".into(), "шШ".into(), "𐐨𐐀".into(), "aaaab".into(), format!("{}b", "a".repeat(48)),
+        // pairs that are equivalent under one of the two case relations only (the relation is chosen at match time for backreferences)
+        "sſ kK ſs Kk ßẞ".into(), "ſs".into(), "Kk".into()];
     let mut hays = hays;
     if cfg.opt("small").is_some() {
         hays.truncate(19);
@@ -243,6 +245,94 @@ pub fn run(cfg: &Cfg, rep: &mut Report) {
                 total_yield_schedules += 1;
             }
             rep.inc(&format!("thread_groups.{}", nthreads));
+        }
+        // ---- the convenience entry points on a reused text buffer, and clone_from
+        // A result remembered inside the Regex and keyed on the haystack's identity (address,
+        // length, a partial checksum) would survive the buffer being rewritten in place: lines of
+        // equal length that differ only in the middle are written into one String in turn, asked
+        // through find / find_iter / replace / replace_all, on one thread and on four.
+        if cfg.opt("small").is_none() {
+            let pad_l = "#".repeat(40);
+            let pad_r = "~".repeat(40);
+            let lines: Vec<String> = hays.iter().filter(|h| h.len() <= 32).map(|h| format!("{}{}{}{}", pad_l, h, " ".repeat(32 - h.len()), pad_r)).collect();
+            let observe = |re: &regress::Regex, text: &str| -> u64 {
+                let a = re.find(text).map(|m| EMatch::from(&m));
+                let b: Vec<EMatch> = re.find_iter(text).take(50).map(|m| EMatch::from(&m)).collect();
+                let c = re.replace(text, "<$0|$1>");
+                let d = re.replace_all(text, "[$0]");
+                let e = if text.is_ascii() { re.find_ascii(text).map(|m| EMatch::from(&m)) } else { None };
+                fnv64(format!("{:?}|{}|{}|{}|{:?}", a.map(|m| m.show()), engine::show_matches(&b), c, d, e.map(|m| m.show())).as_bytes())
+            };
+            let want: Vec<u64> = lines.iter().map(|l| observe(&compile(), &l.clone())).collect();
+            let re = compile();
+            let mut buf = String::with_capacity(128);
+            for round in 0..3 {
+                for (i, l) in lines.iter().enumerate() {
+                    buf.clear();
+                    buf.push_str(l);
+                    let got = observe(&re, &buf);
+                    rep.inc("reused_buffer_queries");
+                    rep.eval(fnv64(format!("buf|{}|{}|{}", pi, round, i).as_bytes()), true);
+                    if got != want[i] {
+                        rep.violation(violation("C19", "find / find_iter / replace on a rewritten text buffer returned what an earlier search of that buffer returned", J::obj().set("pattern", *pat).set("flags", flags.to_string()).set("haystack", l.as_str()).set("check", "c19"), format!("{:x}", got), format!("{:x}", want[i])));
+                        break;
+                    }
+                }
+            }
+            let re = Arc::new(compile());
+            let lines_arc = Arc::new(lines.clone());
+            let want_arc = Arc::new(want.clone());
+            let hs: Vec<_> = (0..4)
+                .map(|t| {
+                    let (re, lines, want) = (re.clone(), lines_arc.clone(), want_arc.clone());
+                    std::thread::spawn(move || {
+                        let mut buf = String::with_capacity(128);
+                        let mut bad = None;
+                        for k in 0..lines.len() * 2 {
+                            let i = (k * 7 + t * 3) % lines.len();
+                            buf.clear();
+                            buf.push_str(&lines[i]);
+                            let a = re.find(&buf).map(|m| EMatch::from(&m));
+                            let d = re.replace_all(&buf, "[$0]");
+                            let b: Vec<EMatch> = re.find_iter(&buf).take(50).map(|m| EMatch::from(&m)).collect();
+                            let c = re.replace(&buf, "<$0|$1>");
+                            let e = if buf.is_ascii() { re.find_ascii(&buf).map(|m| EMatch::from(&m)) } else { None };
+                            let got = fnv64(format!("{:?}|{}|{}|{}|{:?}", a.map(|m| m.show()), engine::show_matches(&b), c, d, e.map(|m| m.show())).as_bytes());
+                            if got != want[i] {
+                                bad = Some(i);
+                                break;
+                            }
+                        }
+                        bad
+                    })
+                })
+                .collect();
+            for h in hs {
+                if let Ok(Some(i)) = h.join() {
+                    rep.violation(violation("C19", "find / replace on a per-thread rewritten buffer through a shared Regex differs from the result alone", J::obj().set("pattern", *pat).set("flags", flags.to_string()).set("haystack", lines[i].as_str()).set("check", "c19"), "differs".into(), "equal".into()));
+                }
+            }
+            // clone_from over a Regex that was compiled differently must behave like the source
+            for other in ["", "i", "iu", "v", "s"] {
+                let of = fl(other);
+                if of == *flags {
+                    continue;
+                }
+                let Ok(mut dst) = regress::Regex::from_unicode("(x)|y".chars().map(|c| c as u32), engine::rflags(of, false)) else { continue };
+                let Ok(mut dst2) = regress::Regex::from_unicode(pat.chars().map(|c| c as u32), engine::rflags(of, false)) else { continue };
+                let src = compile();
+                dst.clone_from(&src);
+                dst2.clone_from(&src);
+                for (i, q) in queries.iter().enumerate().take(120) {
+                    rep.inc("clone_from_queries");
+                    for d in [&dst, &dst2] {
+                        if run_query(d, &hays, q) != expected[i] {
+                            rep.violation(violation("C19", "a Regex made with clone_from behaves differently from its source", J::obj().set("pattern", *pat).set("flags", flags.to_string()).set("destination_flags", other).set("query", format!("{:?}", q)).set("haystack", hays[q.hay].as_str()).set("check", "c19"), "differs".into(), "equal".into()));
+                            break;
+                        }
+                    }
+                }
+            }
         }
         // after everything that ran in this process: each query alone on a fresh Regex once more
         // (process-wide state that outlives a Regex would make this differ from the first pass)
